@@ -452,6 +452,28 @@ class Normalizer:
                 del stmts[i]
                 continue
             i += 1
+        # k = 0; while k < n: BODY; k += 1   is   for k in range(n): BODY   (n not written in BODY, no continue)
+        i = 0
+        while i + 1 < len(stmts):
+            a, lp = stmts[i], stmts[i + 1]
+            if isinstance(a, ast.Assign) and len(a.targets) == 1 and isinstance(a.targets[0], ast.Name) and isinstance(a.value, ast.Constant) \
+                    and a.value.value == 0 and not isinstance(a.value.value, bool) and isinstance(lp, ast.While) and not lp.orelse and len(lp.body) >= 2:
+                k = a.targets[0].id
+                t = lp.test
+                last = lp.body[-1]
+                if isinstance(t, ast.Compare) and len(t.ops) == 1 and isinstance(t.ops[0], ast.Lt) and isinstance(t.left, ast.Name) and t.left.id == k \
+                        and isinstance(last, ast.AugAssign) and isinstance(last.op, ast.Add) and isinstance(last.target, ast.Name) and last.target.id == k \
+                        and isinstance(last.value, ast.Constant) and last.value.value == 1:
+                    bound = t.comparators[0]
+                    bnames = {n.id for n in ast.walk(bound) if isinstance(n, ast.Name)}
+                    written = {n.id for b in lp.body[:-1] for n in ast.walk(b) if isinstance(n, ast.Name) and isinstance(n.ctx, (ast.Store, ast.Del))}
+                    if k not in written and not (bnames & written) and not any(isinstance(n, ast.Continue) for n in _walk_own(lp.body, loops=False)) \
+                            and not any(isinstance(n, ast.Call) for n in ast.walk(bound) if not (isinstance(n, ast.Call) and isinstance(n.func, ast.Name) and n.func.id == "len")):
+                        it = ast.Call(func=ast.Name(id="range", ctx=ast.Load()), args=[bound], keywords=[])
+                        new_lp = ast.copy_location(ast.For(target=ast.Name(id=k, ctx=ast.Store()), iter=it, body=lp.body[:-1], orelse=[], type_comment=None), lp)
+                        ast.fix_missing_locations(new_lp)
+                        stmts[i + 1] = new_lp
+            i += 1
         # a hand-kept position counter (k = -1 ... for x in xs: k += 1; ...) is enumerate
         i = 0
         while i + 1 < len(stmts):
